@@ -92,9 +92,27 @@ def setup_repo_path():
 
 
 def run(cmd, cwd=None, timeout=3600, inp=None):
-    return subprocess.run(
-        cmd, cwd=cwd, capture_output=True, text=True, timeout=timeout, input=inp
-    )
+    """subprocess.run, but on timeout the whole process group dies (`lake env lean --run` is lake -> lean: killing
+    only lake would leave the interpreter running)"""
+    import signal
+    p = subprocess.Popen(cmd, cwd=cwd, stdin=subprocess.PIPE if inp is not None else None, stdout=subprocess.PIPE,
+                         stderr=subprocess.PIPE, text=True, start_new_session=True)
+    _LIVE.add(p.pid)
+    try:
+        out, err = p.communicate(inp, timeout=timeout)
+    except subprocess.TimeoutExpired:
+        try:
+            os.killpg(p.pid, signal.SIGKILL)
+        except ProcessLookupError:
+            pass
+        p.communicate()
+        raise
+    finally:
+        _LIVE.discard(p.pid)
+    return subprocess.CompletedProcess(cmd, p.returncode, out, err)
+
+
+_LIVE = set()  # process groups started by run() that are still alive (killed by shutdown_pool)
 
 
 class BuildLock:
@@ -318,6 +336,12 @@ def run_impl_all(modname, cases, workers=None):
 def shutdown_pool():
     """kill the worker processes (they would otherwise outlive os._exit and hold stdout open)"""
     global _POOL
+    import signal
+    for pid in list(_LIVE):
+        try:
+            os.killpg(pid, signal.SIGKILL)
+        except Exception:
+            pass
     if _POOL is not None:
         procs = list(getattr(_POOL, "_processes", {}).values())
         try:
